@@ -89,6 +89,10 @@ class M(Model):
     def objective(self, ep):
         if not ep.states:
             return None
+        prev = ep.states[-2] if len(ep.states) >= 2 else ep.s0
+        a = int(ep.actions[-1])
+        if not (0 <= a < self.N and bool(self.legal(prev)[a])):
+            return -float(self.N), 1e-6  # episode ended by an invalid action: documented penalty
         _, col, _ = self._arrays(ep.states[-1])
         if (col < 0).any():
             return None
